@@ -162,7 +162,17 @@ func (x *Exec) evalBuiltin(s *State, call *ast.CallExpr, name string) []*Term {
 			}
 			arr = Store(arr, Add(n, Num(i)), v)
 		}
-		return []*Term{withType(x.u.mkSlice(sl.Sort, Add(n, Num(len(call.Args)-1)), arr), x.info.TypeOf(call))}
+		res := x.u.mkSlice(sl.Sort, Add(n, Num(len(call.Args)-1)), arr)
+		if x.c.Options["slice-elems"] {
+			// element-set view: elems(append(s, v...)) = elems(s) with v... added (true of the set of elements below len)
+			el := x.u.sliceElem(sl.Sort)
+			es := mk("elems_"+mangle(sl.Sort), arraySort(el, SBool), sl)
+			for i := range call.Args[1:] {
+				es = Store(es, Select(arr, Add(n, Num(i))), True)
+			}
+			s.assume(Eq(mk("elems_"+mangle(sl.Sort), arraySort(el, SBool), res), es))
+		}
+		return []*Term{withType(res, x.info.TypeOf(call))}
 	case "make":
 		t := x.info.TypeOf(call)
 		switch ut := t.Underlying().(type) {
